@@ -254,6 +254,11 @@ def extra_cases(rng, tier):
         add("array", "list of traced scalars, ndmin=%d" % k_, (lambda m, a, b, k_=k_: m.array([a, 2.0, b], ndmin=k_)), [1.5, -0.5], [0, 1], True)
         add("array", "list of traced rows, ndmin=%d" % k_, (lambda m, a, k_=k_: m.array([a, a * 2.0], ndmin=k_)), [R.iarr(rng, (3,))], [0], True)
         add("array", "nested list of entries, ndmin=%d" % k_, (lambda m, a, k_=k_: m.array([[a[0], 1.0], [2.0, a[1]]], ndmin=k_)), [R.iarr(rng, (2,))], [0], True)
+    add("sum", "dtype=complex of a real x", (lambda m, z: m.sum(z, dtype=complex) * (1.0 + 2.0j)), [R.iarr(rng, (2, 3))], [0], True, modes=("rev",))
+    add("sum", "dtype=complex axis=0 of a real x", (lambda m, z: m.sum(z, axis=0, dtype=complex) * (1.0 + 2.0j)), [R.iarr(rng, (2, 3))], [0], True, modes=("rev",))
+    for dt in (int, bool, "int32"):
+        add("array", "array(x, dtype=%s) (piecewise constant)" % (dt if isinstance(dt, str) else dt.__name__), (lambda m, z, dt=dt: m.array(z, dtype=dt) * 1.0 + 0.0 * z), [R.half_ints(rng, (2, 3))], [0], False, modes=("rev",))
+        add("array", "array(x, %s) positional dtype" % (dt if isinstance(dt, str) else dt.__name__), (lambda m, z, dt=dt: m.array(z, dt) * z), [R.half_ints(rng, (2, 3))], [0], False, modes=("rev",))
     # ---- (a) the same array object in two argument positions: the derivative is the sum over both positions ----
     v4 = R.distinct(rng, (4,))
     p4 = R.positive(rng, (4,))
